@@ -55,10 +55,16 @@ def tensor_module():
     load()
     return sys.modules["synapgrad.tensor"]
 
+_torch = None
 def torch():
-    import torch as _t
-    _t.set_num_threads(1)
-    return _t
+    global _torch
+    if _torch is None:
+        import torch as _t
+        _t.set_num_threads(1)
+        try: _t.set_num_interop_threads(1)
+        except Exception: pass
+        _torch = _t
+    return _torch
 
 @contextlib.contextmanager
 def quiet():
